@@ -36,6 +36,9 @@ CLAIMED = {
  "C19": dict(technique="static analysis: dominance order and error-flow of the atomic file write, symmetric key-codec rules (one separator, first-separator split, Itoa/Atoi), field coverage of the JSON shadow struct, done-after-loop order, sibling rule for the two parse sites (same parser, same mapping provider), provenance of MergeQPRs arguments",
              text="The persistence protocol, the key codec of persisted aggregation bins, the resume path and the merge arguments are the places where the asynchronous result can silently diverge from the synchronous one; each is decided structurally on all paths. Equality of results is not decided.",
              note="Trusted: go/ssa; string-splitting functions are classified by name (first-separator vs all).", ref="§3 C19"),
+ "C20": dict(technique="static analysis: alias/mutation-sink analysis of the fetched document bytes, polarity chain of the allow/except flag across proxy, wire request and store, dominance rules for pass-through returns, provenance of the parsed query text, per-id send order",
+             text="Decides that the filter never writes through the (possibly cached) stored bytes, that allow/except arrives with the right polarity, that documents pass through unfiltered only in the enumerated cases and that one block per id is sent in order. Value fidelity of the JSON re-encoding is the library's behaviour and is not decided.",
+             note="Trusted: go/ssa; dependency summary: insane-json DecodeBytes copies its input.", ref="§3 C20"),
 }
 
 NOT_YET = "check not built yet in this round (planned in DESIGN.md §3); nothing is claimed for it"
